@@ -80,7 +80,7 @@ fn render_time(t: NaiveTime, n: Numeric, pad: Pad) -> Buf<12> {
     buf
 }
 
-// @ob tier=quick timeout=1800 mem=12
+// @ob tier=thorough timeout=3600 mem=12
 // @desc %Y with every padding modifier: the year with at least four digits (zero / space / no padding) and an explicit sign exactly for years outside 0..=9999, for every date incl. negative and five/six-digit years (core::fmt integer path)
 // @bounds all dates x {Zero, Space, None}; loops unwound 9 (values have at most 6 digits + sign)
 // @funcs DelayedFormat::{write_to, format_numeric}, write_year, write_n, write_hundreds
@@ -91,7 +91,9 @@ fn c12_year() {
     let (pad, p) = any_pad();
     let buf = render_date(d, Numeric::Year, pad);
     let y = d.year();
-    assert!(int_ok(&buf, y as i64, 4, p, y < 0 || y > 9999));
+    // four digits; a mandatory sign (years outside 0..=9999) is written in addition to them: -0300, +12345
+    let signed = y < 0 || y > 9999;
+    assert!(int_ok(&buf, y as i64, if signed { 5 } else { 4 }, p, signed));
     kani::cover!(y < 0 && p == 2);
     kani::cover!(y > 9999);
     kani::cover!(y >= 0 && y < 1000 && p == 0);
@@ -151,7 +153,7 @@ two_digit_date_item!(c12_week_from_sun, Numeric::WeekFromSun, |y, o| Some(wk(y, 
 two_digit_date_item!(c12_week_from_mon, Numeric::WeekFromMon, |y, o| Some(wk(y, o, 0)));
 two_digit_date_item!(c12_iso_week, Numeric::IsoWeek, |y, o| Some(iso_year_week(y, o).1));
 
-// @ob tier=quick timeout=1800 mem=12
+// @ob tier=thorough timeout=3600 mem=12
 // @desc one-digit and three-digit date items: %q quarter, %w (Sunday = 0), %u (Monday = 1) ignore padding and print one digit; %j is the ordinal with width 3 under every padding modifier
 // @bounds all dates x {Zero, Space, None}
 // @funcs DelayedFormat::format_numeric (Quarter, NumDaysFromSun, WeekdayFromMon, Ordinal), write_one, write_n
